@@ -95,14 +95,32 @@ def classify(run):
     return "order-or-other:" + mode
 
 
-def race_functions(out):
-    """gate functions named in the first frames of race reports"""
-    fs = []
+def gate_races(out):
+    """Race-detector reports whose two racing accesses both happen on behalf of gate code: walking
+    each stack from the top, the first frame that is gate's or the harness's is gate's (so a race
+    inside a library called by gate counts, one inside the harness, the schedule controller or the
+    verif hooks does not).  Returns ([(key, report)], n_other_reports)."""
+    gate, other = [], 0
+    head = re.compile(r"(?m)^(?:Read|Write|Previous read|Previous write|Atomic \w+|Previous atomic \w+) at .*$")
     for block in out.split("WARNING: DATA RACE")[1:]:
-        m = re.search(r"\n\s+(go\.minekube\.com/gate/\S+?)\(", block)
-        if m:
-            fs.append(m.group(1).split("/")[-1])
-    return sorted(set(fs))
+        block = block.split("==================")[0]
+        owners = []
+        for sec in head.split(block)[1:3]:
+            sec = sec.split("\n\n")[0]
+            owner = None
+            for fn in re.findall(r"(?m)^\s+(\S+)\(.*\)\s*$", sec):
+                if fn.startswith("verif/harness/") or "/verifhook." in fn:
+                    owner = "harness"
+                    break
+                if fn.startswith("go.minekube.com/gate/"):
+                    owner = re.sub(r"^go\.minekube\.com/gate/pkg/", "", fn)
+                    break
+            owners.append(owner)
+        if len(owners) == 2 and all(o and o != "harness" for o in owners):
+            gate.append(("+".join(sorted(set(owners))), block[:4000]))
+        else:
+            other += 1
+    return gate, other
 
 
 def harness(ctx, sched, trace, scenarios, stress, race):
@@ -111,14 +129,37 @@ def harness(ctx, sched, trace, scenarios, stress, race):
     p = ctx.harness("./c14", "TestSchedules", race=race, check=False, timeout=1500,
                     env={"VERIF_SCHED_FILE": trace + ".sched.json", "VERIF_TRACE": trace,
                          "VERIF_SCENARIOS": scenarios, "VERIF_STRESS": stress})
-    races = race_functions(p.stdout) if "DATA RACE" in p.stdout else []
+    races, other = gate_races(p.stdout)
+    if other:
+        raise vlib.ToolError("race detector reports a race outside gate code (harness problem):\n"
+                             + p.stdout[p.stdout.find("WARNING: DATA RACE"):][:3000])
     if p.returncode != 0 and not races:
         raise vlib.ToolError("harness failed:\n" + "\n".join(p.stdout.splitlines()[-60:]))
     stats = json.load(open(ctx.path(trace + ".stats.json")))
     return vlib.read_ndjson(ctx.path(trace)), stats, races, p.stdout
 
 
+def run_replay(ctx):
+    """bin/vcheck C14 quick --replay <file>: force the recorded schedule again and judge it."""
+    d = json.load(open(ctx.replay))
+    sc = (d.get("replay") or {}).get("schedule")
+    recs, stats, races, out = harness(ctx, [sc] if sc else [], "trace.ndjson", 0 if sc else 1,
+                                      0 if sc else 25, False)
+    rejected, matched, tstates = ctx.validate_runs("PlayQueue_Trace", recs)
+    for rj in rejected:
+        ctx.finding(classify(rj["run"]), "replayed history is not a behaviour of PlayQueue (first unexplained "
+                    "event: %s)" % json.dumps(rj["bad"]), {"schedule": sc, "first_unexplained": rj["bad"],
+                                                          "history": rj["run"]})
+    return ctx.finish("model_checking", {
+        "states": tstates, "transitions": tstates, "samples": [sc or "scenarios+stress"],
+        "evaluations": stats["schedules"] + stats["scenarios"] + stats["stress_runs"],
+        "distinct_nontrivial": 2, "rule": "replay of one recorded schedule (2 concurrent writers + state changes)",
+        "trace_events_validated": matched, "exhaustive": False}, ["replay run"])
+
+
 def run(ctx):
+    if ctx.replay:
+        return run_replay(ctx)
     r = ctx.tlc("PlayQueueImpl")
     mc_states = r.distinct
     ctx.log("PlayQueueImpl.tla (c.mu respected): %d distinct states, invariants hold" % r.distinct)
@@ -150,9 +191,9 @@ def run(ctx):
     missing = [g for g in NEED_GATES if not stats["gate_arrivals"].get(g)]
     if missing:
         raise vlib.ToolError("hook_missing: gates never reached: %s" % missing)
-    for f in races:
-        ctx.finding("data-race:" + f, "the race detector reports a data race in %s while writers and state "
-                    "changes run concurrently" % f, {"report": out[out.find("WARNING: DATA RACE"):][:6000]})
+    for f, report in races:
+        ctx.finding("data-race:" + f, "the race detector reports a data race between %s while writers and state "
+                    "changes run concurrently" % f, {"report": report})
 
     total = len(recs)
     ctx.log("harness: %d schedules forced (%d blocked steps), %d scenarios, %d stress runs, %d events"
@@ -247,6 +288,8 @@ def negative_control(ctx, recs, rejected):
             "neg-swap": swapped,                          # two delivered packets change places
             "neg-dup": run[:b] + [dict(run[a])] + run[b:],  # a packet is delivered twice
         }
+        if ctx.quick:
+            variants = {k: variants[k] for k in ("neg-swap",)}
         allruns = []
         for name in sorted(variants):
             v = variants[name]
@@ -257,5 +300,5 @@ def negative_control(ctx, recs, rejected):
         got = sorted(rj["run"][0]["name"] for rj in rej)
         if got != sorted(variants):
             raise vlib.ToolError("negative control: corrupted histories accepted (rejected only %s)" % got)
-        return "passed (drop, swap, dup of a delivered packet rejected)"
+        return "passed (%s rejected)" % ", ".join(sorted(variants))
     return "skipped (order scenario missing or itself rejected)"
